@@ -47,7 +47,7 @@ type Op struct {
 	D   *Val      `json:"d,omitempty"`
 	KVs []KV      `json:"kvs"`
 	Kss [][]int64 `json:"kss"`
-	Alt bool      `json:"alt,omitempty"` // another spelling of the same operation (tuple instead of list, dict instead of pairs)
+	Alt int       `json:"alt,omitempty"` // another spelling of the same operation: 1 tuple / dict argument, 2 a host iterable of unknown length
 }
 
 type Probe struct {
@@ -126,6 +126,8 @@ func opsFor(d *Desc, nd *Node, r *hx.Rand) []Op {
 			Op{N: "SUpdate", Kss: [][]int64{}}, Op{N: "SUpdate", Kss: [][]int64{{}, {}}}, Op{N: "SUpdate", Kss: [][]int64{{present()}, {absent, 556}}}, Op{N: "SUpdate", Kss: [][]int64{{present(), absent}}}, Op{N: "SUpdate", Kss: [][]int64{{}}},
 			Op{N: "GoSInsert", K: i64(hx.Pick(r, []int64{present(), absent})), V: nil},
 			Op{N: "GoSDelete", K: i64(present())}, Op{N: "GoSDelete", K: i64(absent)}, Op{N: "GoSClear"}, Op{N: "XSetField", V: pv(pay())})
+	case "hbox": // a host-defined mutable value: its bound method, its Go API, and the assignments it does not support
+		ops = append(ops, Op{N: "LAppend", V: pv(pay())}, Op{N: "GoLAppend", V: pv(pay())}, Op{N: "XSetField", V: pv(pay())})
 	default: // tuple, struct, func, bound: no mutators; item and field assignment must fail
 		ops = append(ops, Op{N: "LSetIndex", I: i64(0), V: pv(pay())}, Op{N: "XSetField", V: pv(pay())})
 	}
@@ -154,8 +156,11 @@ func spell(in *Instance, op Op) (name string, a, b starlark.Value, isMethod bool
 	case "LClear", "DClear", "SClear":
 		return "clear", starlark.Tuple{}, nil, true
 	case "LExtend":
-		if op.Alt {
+		if op.Alt == 1 {
 			return "extend", starlark.Tuple{tupleOf(list(op.Vs))}, nil, true
+		}
+		if op.Alt == 2 {
+			return "extend", starlark.Tuple{&graphs.NoLen{Vals: tupleOf(list(op.Vs))}}, nil, true
 		}
 		return "extend", starlark.Tuple{list(op.Vs)}, nil, true
 	case "LInsert":
@@ -170,8 +175,11 @@ func spell(in *Instance, op Op) (name string, a, b starlark.Value, isMethod bool
 	case "LSetIndex":
 		return "setindex", starlark.MakeInt64(*op.I), in.Value(*op.V), false
 	case "LInplaceAdd":
-		if op.Alt {
+		if op.Alt == 1 {
 			return "iadd", tupleOf(list(op.Vs)), nil, false
+		}
+		if op.Alt == 2 {
+			return "iadd", &graphs.NoLen{Vals: tupleOf(list(op.Vs))}, nil, false
 		}
 		return "iadd", list(op.Vs), nil, false
 	case "DPop":
@@ -187,7 +195,10 @@ func spell(in *Instance, op Op) (name string, a, b starlark.Value, isMethod bool
 		if len(op.KVs) == 0 && op.K != nil { // spelled d.update() with no argument
 			return "update", starlark.Tuple{}, nil, true
 		}
-		if op.Alt {
+		if op.Alt == 2 {
+			return "update", starlark.Tuple{&graphs.NoLen{Vals: tupleOf(kvlist(op.KVs))}}, nil, true
+		}
+		if op.Alt == 1 {
 			dd := starlark.NewDict(len(op.KVs))
 			for _, kv := range op.KVs {
 				dd.SetKey(starlark.MakeInt64(kv.K), in.Value(kv.V))
@@ -218,7 +229,14 @@ func spell(in *Instance, op Op) (name string, a, b starlark.Value, isMethod bool
 			for _, k := range ks {
 				es = append(es, starlark.MakeInt64(k))
 			}
-			args = append(args, starlark.NewList(es))
+			switch op.Alt {
+			case 1:
+				args = append(args, starlark.Tuple(es))
+			case 2:
+				args = append(args, &graphs.NoLen{Vals: es})
+			default:
+				args = append(args, starlark.NewList(es))
+			}
 		}
 		if args == nil {
 			args = starlark.Tuple{}
@@ -238,10 +256,16 @@ func tupleOf(l *starlark.List) starlark.Tuple {
 	return t
 }
 
+func mutableKind(k string) bool { return k == "list" || k == "dict" || k == "set" || k == "hbox" }
+
 func isGoOp(n string) bool { return strings.HasPrefix(n, "Go") }
 
 func applyGo(in *Instance, id int, op Op) (err error, skipped bool) {
 	switch x := in.Objs[id].(type) {
+	case *graphs.Box:
+		if op.N == "GoLAppend" {
+			return x.Append(in.Value(*op.V)), false
+		}
 	case *starlark.List:
 		switch op.N {
 		case "GoLAppend":
@@ -410,6 +434,7 @@ var alwaysSucceeds = map[string]bool{
 }
 
 var knownMutators = map[string]map[string]bool{
+	"hbox": {"append": true},
 	"list": {"append": true, "clear": true, "extend": true, "insert": true, "pop": true, "remove": true},
 	"dict": {"clear": true, "pop": true, "popitem": true, "setdefault": true, "update": true},
 	"set":  {"add": true, "clear": true, "discard": true, "pop": true, "remove": true, "update": true},
@@ -558,7 +583,7 @@ func runGraph(seed uint64, i int, maxProbes int) GraphOut {
 			out.EnvOK, out.EnvNote = false, "universe entry rebound: "+k
 		}
 	}
-	wantPre := 4
+	wantPre := 5 // struct, reg, pick, box, boom
 	for _, nd := range d.Nodes {
 		if nd.Host {
 			wantPre++
@@ -661,7 +686,7 @@ func runGraph(seed uint64, i int, maxProbes int) GraphOut {
 			continue
 		}
 		for _, op := range opsFor(d, nd, r) {
-			op.Alt = r.Intn(3) == 0
+			op.Alt = r.Intn(4) % 3 // 0 twice as often
 			jobs = append(jobs, job{nd.ID, op})
 		}
 	}
@@ -707,7 +732,7 @@ func runGraph(seed uint64, i int, maxProbes int) GraphOut {
 			}
 		}
 		// oracle
-		immutable := reach[jb.id] || nd.PreFrozen || !(nd.Kind == "list" || nd.Kind == "dict" || nd.Kind == "set")
+		immutable := reach[jb.id] || nd.PreFrozen || !mutableKind(nd.Kind)
 		if p.Viol == "" {
 			switch {
 			case len(p.Others) > 0:
@@ -733,7 +758,7 @@ func runGraph(seed uint64, i int, maxProbes int) GraphOut {
 			if st.Objs[jb.id] == nil {
 				continue
 			}
-			if !(reach[jb.id] || nd.PreFrozen || !(nd.Kind == "list" || nd.Kind == "dict" || nd.Kind == "set")) {
+			if !(reach[jb.id] || nd.PreFrozen || !mutableKind(nd.Kind)) {
 				continue
 			}
 			vs := vias(st, jb.id, jb.op)
